@@ -115,21 +115,21 @@ var c12Custom = []miniSchema{
 }
 
 type c12Pkg struct {
-	Dir        string                      `json:"dir"`
-	Template   string                      `json:"template"`     // testify | matryer | file | http | https
-	TemplURL   string                      `json:"templ_url"`    // for custom templates
-	SchemaIdx  int                         `json:"schema_idx"`   // index into c12Custom (custom templates)
-	SchemaLoc  string                      `json:"schema_loc"`   // default | explicit
-	SchemaURL  string                      `json:"schema_url"`   // where the schema is looked for
-	Avail      string                      `json:"avail"`        // ok | 404 | 500 | transport-error | truncated | empty | not-json | file-missing
-	Require    string                      `json:"require"`      // unset | true | false
-	PkgTD      map[string]any              `json:"pkg_td"`
-	IfaceTD    map[string]map[string]any   `json:"iface_td"`   // iface → data in its `config`
-	ConfigsTD  map[string][]map[string]any `json:"configs_td"` // iface → data per `configs` entry
-	Ifaces     []string                    `json:"ifaces"`
-	OutFile    string                      `json:"out_file"`
-	Verdict    string                      `json:"verdict"` // accept | reject | open
-	Why        string                      `json:"why"`
+	Dir       string                      `json:"dir"`
+	Template  string                      `json:"template"`   // testify | matryer | file | http | https
+	TemplURL  string                      `json:"templ_url"`  // for custom templates
+	SchemaIdx int                         `json:"schema_idx"` // index into c12Custom (custom templates)
+	SchemaLoc string                      `json:"schema_loc"` // default | explicit
+	SchemaURL string                      `json:"schema_url"` // where the schema is looked for
+	Avail     string                      `json:"avail"`      // ok | 404 | 500 | transport-error | truncated | empty | not-json | file-missing
+	Require   string                      `json:"require"`    // unset | true | false
+	PkgTD     map[string]any              `json:"pkg_td"`
+	IfaceTD   map[string]map[string]any   `json:"iface_td"`   // iface → data in its `config`
+	ConfigsTD map[string][]map[string]any `json:"configs_td"` // iface → data per `configs` entry
+	Ifaces    []string                    `json:"ifaces"`
+	OutFile   string                      `json:"out_file"`
+	Verdict   string                      `json:"verdict"` // accept | reject | open
+	Why       string                      `json:"why"`
 }
 
 type c12Case struct {
@@ -470,15 +470,32 @@ func c12Gen(c *core.Ctx, r *core.Rng, builtin map[string]miniSchema, policy stri
 		case "override":
 			// the whole map above; below, exactly one inherited key is overridden (no key is
 			// added) — with a wrongly typed value, or with another valid one
+			k := core.Pick(r, core.SortedKeys(d))
+			var nv any = []any{"not", "a", "scalar"}
+			switch r.Intn(3) {
+			case 0:
+				nv = d[k]
+			case 1:
+				// a wrongly typed look-alike: it prints like the valid value it overrides (30 and
+				// "30", true and "true"), so the two maps differ in type only
+				switch x := d[k].(type) {
+				case int:
+					nv = fmt.Sprint(x)
+				case bool:
+					nv = fmt.Sprint(x)
+				case string:
+					d[k] = core.Pick(r, []string{"7", "true"})
+					if d[k] == "7" {
+						nv = 7
+					} else {
+						nv = true
+					}
+				}
+			}
 			if r.Bool() {
 				putPkg(d)
 			} else {
 				putRoot(d)
-			}
-			k := core.Pick(r, core.SortedKeys(d))
-			var nv any = []any{"not", "a", "scalar"}
-			if r.Chance(1, 3) {
-				nv = d[k]
 			}
 			if i1 != "" && r.Bool() {
 				putConfigs(map[string]any{k: nv})
@@ -696,7 +713,7 @@ func RunC12(c *core.Ctx) int {
 		builtin[n] = s
 	}
 	n := 1200
-	budget := 170 * time.Second
+	budget := 20 * time.Minute // quick: the case count is the contract, the clock only a watchdog
 	if c.Tier == "thorough" {
 		n = 24000
 		budget = 28 * time.Minute
